@@ -8,6 +8,7 @@ from vlib import *
 import pyed
 
 
+THOROUGH_ROUNDS = 1      # repetitions of the conformance part in the thorough tier (fresh random draws each)
 def honest(rng, n):
     ents = []
     for j in range(n):
